@@ -1015,6 +1015,11 @@ pub fn f_pack(thorough: bool) -> Vec<Unit> {
         let mut v = base.clone(); v.flags.push("init-tls".into()); v.flags.push("redecl".into()); v.label = "redeclared-relations".into(); vs.push(v);
         // first declaration with an initialiser, the later one without: the relation starts empty
         let mut v = base.clone(); v.flags.push("redecl".into()); v.label = "redeclared-without-initialiser".into(); vs.push(v);
+        // the first (overridden) declarations come from an included source, the includer re-declares the relations after
+        // the include: the text must be pasted in place, not appended (both with and without a later initialiser)
+        let nfirst = base.prog.rels.iter().filter(|r| r.ds.is_none()).count();
+        let mut v = base.clone(); v.flags.push("redecl".into()); v.include_block = Some((0, nfirst)); v.label = "include_source-then-redeclare".into(); vs.push(v);
+        let mut v = base.clone(); v.flags.push("init-tls".into()); v.flags.push("redecl".into()); v.include_block = Some((0, nfirst)); v.label = "include_source-then-redeclare-initialised".into(); vs.push(v);
         for (attrs, label) in [(vec!["#![measure_rule_times]"], "measure_rule_times"), (vec!["#![generate_run_timeout]"], "generate_run_timeout"), (vec!["#![measure_rule_times]", "#![generate_run_timeout]"], "both-attributes")] {
             let mut v = base.clone(); v.attrs = attrs.iter().map(|s| s.to_string()).collect(); v.label = label.into(); vs.push(v);
         }
